@@ -153,6 +153,10 @@ pub enum Op {
     Fold { update: bool, revert: bool },
     /// `ClosureFold` builder through `incr_unordered_fold_with`
     CFold { update: bool, revert: bool, initial: bool },
+    /// `incr_unordered_fold` without an update function whose accumulator is a *keyed collection* (re-index:
+    /// add = insert (k, v+100), remove = delete k): add and remove of one key do not commute, so the order in
+    /// which the default `update` composes them matters (added after seed C15-c)
+    KFold { revert: bool },
     Merge,
     Partition,
     PartitionMapi,
@@ -168,6 +172,7 @@ impl Op {
             Op::FilterMapi => "filter_mapi".into(),
             Op::Fold { update, revert } => format!("fold.u{}r{}", b(update), b(revert)),
             Op::CFold { update, revert, initial } => format!("cfold.u{}r{}i{}", b(update), b(revert), b(initial)),
+            Op::KFold { revert } => format!("kfold.r{}", b(revert)),
             Op::Merge => "merge".into(),
             Op::Partition => "partition".into(),
             Op::PartitionMapi => "partition_mapi".into(),
@@ -193,6 +198,8 @@ impl Op {
             _ => {
                 if let Some(f) = s.strip_prefix("fold.") {
                     Op::Fold { update: flag(f, 'u')?, revert: flag(f, 'r')? }
+                } else if let Some(f) = s.strip_prefix("kfold.") {
+                    Op::KFold { revert: flag(f, 'r')? }
                 } else if let Some(f) = s.strip_prefix("cfold.") {
                     Op::CFold { update: flag(f, 'u')?, revert: flag(f, 'r')?, initial: flag(f, 'i')? }
                 } else {
@@ -301,6 +308,7 @@ pub fn expected(op: Op, inputs: &[&Bt]) -> Out {
         Op::Mapi => Out::Map(m.iter().map(|(k, v)| (*k, f_mapi(*k, *v))).collect()),
         Op::FilterMapi => Out::Map(m.iter().filter_map(|(k, v)| f_filter_mapi(*k, *v).map(|x| (*k, x))).collect()),
         Op::Fold { .. } | Op::CFold { .. } => Out::Num(m.iter().fold(FOLD_INIT, |acc, (k, v)| acc + weight(*k, *v))),
+        Op::KFold { .. } => Out::Map(m.iter().map(|(k, v)| (*k, v + 100)).collect()),
         Op::Merge => {
             let r = inputs[1];
             let keys: BTreeSet<i32> = m.keys().chain(r.keys()).cloned().collect();
